@@ -167,6 +167,29 @@ def r2_merge(chk, repo):
             if it and "dependencies_by_kind().items()" in it:
                 ok = True
         chk.check(ok, "C08.R2", f, None, f"{q} does not merge same-kind inputs with Chunk.merge over dependencies_by_kind()", site_text=f"{q}: Chunk.merge per data kind", site={"function": q})
+    # Chunk.merge: on a field-name collision the LAST chunk wins, and the order of the chunks is the
+    # order of depends_on: the data arrays are merged in the order given (never re-sorted)
+    mg = repo.func("Chunk.merge", "strax/chunk.py")
+    CH = mg.params[1]
+    ma = [c for c in calls_in(mg.node) if (call_name(c) or "").endswith("merge_arrs") and c.args]
+    okm = False
+    if len(ma) == 1 and isinstance(ma[0].args[0], ast.ListComp):
+        lc = ma[0].args[0]
+        okm = norm(lc.generators[0].iter) == CH and norm(lc.elt) == f"{norm(lc.generators[0].target)}.data"
+    resorted = [st for st in walk_body(mg.node) if isinstance(st, ast.Assign) and norm(st.targets[0]) == CH and "sorted(" in norm(st.value)] + [st for st in walk_body(mg.node) if isinstance(st, ast.Expr) and norm(st.value).startswith(f"{CH}.sort(")]
+    chk.check(okm and not resorted, "C08.R2", mg, resorted[0] if resorted else (stmt_of(ma[0]) if ma else None), "Chunk.merge does not merge the data arrays in the order the chunks were given (depends_on order): on a shared field name another dependency's values win", site_text="Chunk.merge: merge_arrs([c.data for c in chunks]) in the given order", site={"function": mg.qualname, "rule": "merge order"})
+    # an inlined multi-output plugin is computed once per chunk: all its outputs are stored
+    psp = repo.func("ParallelSourcePlugin.do_compute", PSP)
+    rc = [st for st in walk_body(psp.node) if isinstance(st, ast.Assign) and isinstance(st.value, ast.Call) and isinstance(st.value.func, ast.Attribute) and st.value.func.attr == "do_compute" and isinstance(st.targets[0], ast.Name)]
+    oka = False
+    if len(rc) == 1:
+        RV = rc[0].targets[0].id
+        pcfg = cfg_of(psp)
+        for lp in [x for x in walk_body(psp.node) if isinstance(x, ast.For) and norm(x.iter) in (RV, f"{RV}.keys()", f"{RV}.items()")]:
+            st0 = [x for x in lp.body if isinstance(x, ast.Assign) and isinstance(x.targets[0], ast.Subscript)]
+            if st0 and any(t.endswith(".multi_output") and p_ is True for t, p_ in pcfg.guard_facts(pcfg.node_of(lp))):
+                oka = True
+    chk.check(oka, "C08.R2", psp, rc[0] if rc else None, "the result of an inlined multi-output plugin is not stored for all of its outputs: the plugin is computed again (on the same rows) for every further output", site_text="ParallelSourcePlugin.do_compute: for d in r: results[d] = r[d] for multi-output plugins", site={"function": psp.qualname, "rule": "all outputs stored"})
     it = repo.func("Plugin.iter", PLUGIN)
     R = _roles(it)
     subs = [c for c in calls_in(it.node) if (call_name(c) or "").endswith(".submit") or call_name(c) == "self._iter_compute"]
@@ -234,6 +257,10 @@ def r4_pacemaker(chk, repo):
 
 
 WITNESSES = [
+    W("merge order follows the data type names", "C08.R2", "strax/chunk.py",
+      "data = strax.merge_arrs(", "chunks = sorted(chunks, key=lambda x: x.data_type)\n        data = strax.merge_arrs("),
+    W("inlined multi-output plugin stores one output per computation", "C08.R2", PSP,
+      "if p.multi_output:\n                    for d in r:\n                        results[d] = r[d]\n                else:\n                    results[output_name] = r", "results[output_name] = r[output_name] if p.multi_output else r"),
     W("leftover raise deleted", "C08.R1", PLUGIN,
       "if buffer is not None and len(buffer):\n                        raise RuntimeError(f\"Plugin {d} terminated with leftover {d}: {buffer}\")", "pass"),
     W("premature-end raise deleted", "C08.R1", PLUGIN,
